@@ -65,7 +65,7 @@ def gen(seed: int, tier: str, idx=None):
         g.emit({"op": "new_doc", "rows": rows, "cols": cols, "hr": min(rng0.choice([0, 1, 1, 2]), rows), "hc": min(rng0.choice([0, 1, 1]), cols)})
     steps = rng0.randint(6, 34 if tier == "thorough" else 24)
     weights = {"write": 14, "add_row": 3, "add_col": 3, "del_row": 2, "del_col": 2, "add_table": 3, "add_sheet": 1.5, "rename": 1, "merge": 3,
-               "style": 4, "border": 4, "caption": 2, "format": 6, "custom_format": 2, "save": 6, "restart": 3}
+               "style": 4, "border": 4, "caption": 2, "format": 9, "custom_format": 3, "save": 6, "restart": 3}
     for k in list(weights):
         if k not in ("write", "save") and rng0.random() < 0.3:
             weights[k] = 0
@@ -116,9 +116,15 @@ def gen(seed: int, tier: str, idx=None):
         elif kind == "caption":
             g.emit({"op": "set_caption", "d": 0, "s": s, "t": t, "text": rng.choice(["Caption", "c", "Ünï \U0001F600"]), "enabled": rng.random() < 0.7})
         elif kind == "format":
-            g.emit({"op": "set_format", "d": 0, "s": s, "t": t, "r": rng.randrange(tm.nrows), "c": rng.randrange(tm.ncols), "k": rng.randrange(1000)})
+            rr, cc = rng.randrange(tm.nrows), rng.randrange(tm.ncols)
+            if rng.random() < 0.7:
+                g.emit({"op": "write", "d": 0, "s": s, "t": t, "r": rr, "c": cc, "v": V.enc(V.gen_value(rng, {"i": 3, "f": 3, "b": 1, "s": 1, "dt": 1}, False))})
+            g.emit({"op": "set_format", "d": 0, "s": s, "t": t, "r": rr, "c": cc, "k": rng.randrange(1000)})
         elif kind == "custom_format":
-            g.emit({"op": "custom_format", "d": 0, "s": s, "t": t, "r": rng.randrange(tm.nrows), "c": rng.randrange(tm.ncols), "k": rng.randrange(1000),
+            rr, cc = rng.randrange(tm.nrows), rng.randrange(tm.ncols)
+            if rng.random() < 0.7:
+                g.emit({"op": "write", "d": 0, "s": s, "t": t, "r": rr, "c": cc, "v": V.enc(V.gen_value(rng, {"i": 3, "f": 3, "s": 2, "dt": 1}, False))})
+            g.emit({"op": "custom_format", "d": 0, "s": s, "t": t, "r": rr, "c": cc, "k": rng.randrange(1000),
                     "name": rng.choice([None, "CF " + str(rng.randrange(5))])})
         elif kind == "save":
             o = {"op": "save", "d": 0, "slot": rng.choice(ALL_SLOTS)}
